@@ -2,6 +2,7 @@
    Only statements: each theorem is closed by [exact] of a lemma proved under theories/. *)
 From Coq Require Import ZArith List Bool Arith.
 From BV Require Import Space.DofMaps Space.Colouring Space.SpaceBasics Space.ColouringProofs Space.DofMapsProofs
+  Space.P1Proofs Space.RwgProofs Space.Corr Space.GridOk Space.C09Lemmas
   Concurrency.Interleave Concurrency.Launch Concurrency.FootprintFacts Concurrency.C16Lemmas.
 From BVgen Require Import Footprints.
 Import ListNotations.
@@ -90,3 +91,11 @@ Print Assumptions C16_alias_closed_dp1.
 Theorem C16_alias_closed_localised : forall s, alias_closed (localised_space s).
 Proof. exact localised_alias_closed. Qed.
 Print Assumptions C16_alias_closed_localised.
+Theorem C16_alias_closed_p1 : forall g sup incl trunc, alias_closed (p1_space g sup incl trunc).
+Proof. exact p1_alias_closed. Qed.
+Print Assumptions C16_alias_closed_p1.
+(* RWG and SNC (same builder), on every grid whose tables are consistent *)
+Theorem C16_alias_closed_rwg : forall g sup incl trunc, grid_ok g -> support_in_range g sup ->
+  alias_closed (rwg_space g sup incl trunc).
+Proof. exact c09_rwg_alias_closed. Qed.
+Print Assumptions C16_alias_closed_rwg.
